@@ -56,6 +56,8 @@ class Table(object):
         w = m.world
         for state in ORDER:
             regimes = ['none', 'stale'] if state in ('Idle',) else ['live']
+            if state == 'Active':
+                regimes = ['stale', 'live']
             if state == 'Connect':
                 regimes = ['none', 'stale', 'live']
             for reg in regimes:
